@@ -63,7 +63,7 @@ func optString(o evt.SubOpts) string {
 	return strings.Join(p, "+")
 }
 
-var scriptNames = []string{"", "unsubSelf", "unsubNext", "subNew", "clearOwn", "clearAll", "pubColliding", "pubOwn"}
+var scriptNames = []string{"", "unsubSelf", "unsubNext", "subNew", "clearOwn", "clearAll", "pubColliding", "pubOwn", "clearOwnAndResubscribe", "clearAllAndResubscribe"}
 
 func (o Op) String() string {
 	switch o.K {
@@ -295,6 +295,12 @@ func scriptOps(sc, ty, slot, id int, ctx bool) []Op {
 		return []Op{{K: KPub, Ty: other, Val: id + 10}}
 	case 7:
 		return []Op{{K: KPub, Ty: ty, Val: id + 2}}
+	case 8:
+		// "re-register my handlers": the registry of the type is torn down and rebuilt with
+		// the same number of registrations while a publish of that type is in flight
+		return []Op{{K: KClear, Ty: ty}, {K: KSub, Ty: ty, Slot: 3}}
+	case 9:
+		return []Op{{K: KClearAll}, {K: KSub, Ty: ty, Slot: 3}}
 	}
 	return nil
 }
@@ -366,7 +372,7 @@ func alphaCollisions() []Op {
 
 func alphaReentrant() []Op {
 	var l []Op
-	for sc := 1; sc <= 7; sc++ {
+	for sc := 1; sc <= 9; sc++ {
 		l = append(l, subS(0, 0, evt.SubOpts{}, sc))
 	}
 	for _, sc := range []int{1, 3, 4, 7} {
